@@ -1,1 +1,76 @@
-From RV Require Import Run.C12.
+(* C12 - Equality is symmetric and consistent with ordering.
+   Property theorems only; proofs live in Proofs/C12.v.  `veq`, `vneq`, `vlt`, `vgt`
+   (Model/ValueEq.v) are the functions compared with rsass's answers on every run. *)
+From Coq Require Import String List ZArith Bool NArith.
+From RV Require Import Base.F64 Model.Units Model.Numeric Model.ValueEq Proofs.C12.
+Import ListNotations.
+Local Open Scope Z_scope.
+
+(* `a != b` is the negation of `a == b`: all values *)
+Theorem C12_neq : forall a b, vneq a b = negb (veq a b).
+Proof. exact neq_is_negation. Qed.
+Print Assumptions C12_neq.
+
+(* every modelled value containing no NaN equals itself (structural induction) *)
+Theorem C12_refl : forall v, has_other v = false -> nan_free v = true -> veq v v = true.
+Proof. exact veq_refl. Qed.
+Print Assumptions C12_refl.
+
+(* numbers: every non-NaN double, every unit set (0 and infinities through the partial_cmp fallback) *)
+Theorem C12_refl_number : forall n, f_is_nan (nval n) = false -> num_eqb n n = true.
+Proof. exact num_eqb_refl. Qed.
+Print Assumptions C12_refl_number.
+
+(* equality is symmetric whenever the numbers of a and the numbers of b compare symmetrically:
+   Number/Numeric equality is the only source of asymmetry (strings, separators, brackets, list
+   and map structure, the empty list/map rule are symmetric) *)
+Theorem C12_sym : forall a b, pairs_sym a b -> veq a b = veq b a.
+Proof. exact veq_sym. Qed.
+Print Assumptions C12_sym.
+
+(* PARTIAL characterisation of the symmetric number pairs: with the same unit set only Number::eq
+   (|a-b|/|a| <= EPSILON) can differ between the directions; with exactly one unitless operand both
+   directions are false.  A closed-form input class for Number::eq itself is not proved. *)
+Theorem C12_sym_number_partial : forall a b,
+  (us_eqb (nunit a) (nunit b) = true ->
+   number_eq (nval a) (nval b) = number_eq (nval b) (nval a) -> num_eqb a b = num_eqb b a) /\
+  (us_eqb (nunit a) (nunit b) = false -> num_is_no_unit a || num_is_no_unit b = true ->
+   num_eqb a b = false /\ num_eqb b a = false).
+Proof. intros a b. split; [apply numeric_eq_sym_same_unit|apply numeric_eq_unitless_vs_unit]. Qed.
+Print Assumptions C12_sym_number_partial.
+
+(* F17: the unrestricted statement is false: 1 == 0.9999999999999998 but not the reverse *)
+Definition C12_sym_statement : Prop := forall a b, veq a b = veq b a.
+Theorem C12_refuted_sym : ~ C12_sym_statement /\
+  veq (VNum one true) (VNum below_one true) = true /\ veq (VNum below_one true) (VNum one true) = false.
+Proof.
+  split; [|exact refuted_sym]. intros H. specialize (H (VNum one true) (VNum below_one true)).
+  destruct refuted_sym as [E1 E2]. rewrite E1, E2 in H. discriminate.
+Qed.
+Print Assumptions C12_refuted_sym.
+
+(* for two numbers that the code can compare (partial_cmp is Some) and that carry the same
+   `calculated` flag, exactly one of <, ==, > holds *)
+Theorem C12_trichotomy : forall x y c o, numeric_cmp x y = Some (Some o) -> count3 (VNum x c) (VNum y c) = 1.
+Proof. exact trichotomy. Qed.
+Print Assumptions C12_trichotomy.
+
+(* F18: different flags: calc(1) < 1 and calc(1) == 1 *)
+Theorem C12_refuted_trichotomy_calc : count3 (VNum one false) (VNum one true) = 2.
+Proof. exact refuted_trichotomy_calc. Qed.
+Print Assumptions C12_refuted_trichotomy_calc.
+
+(* F19: 1px vs 1: none of the three *)
+Theorem C12_refuted_trichotomy_unitless : count3 (VNum one_px true) (VNum one true) = 0.
+Proof. exact refuted_trichotomy_unitless. Qed.
+Print Assumptions C12_refuted_trichotomy_unitless.
+
+(* hypotheses are satisfiable *)
+Example C12_nonvacuous :
+  pairs_sym (VList [VNum one true; VStr [97%N] false] 1 false) (VList [VNum one true; VStr [97%N] true] 1 false)
+  /\ numeric_cmp one below_one = Some (Some Eq) /\ numeric_cmp below_one one = Some (Some Lt)
+  /\ nan_free (VMap [VStr [97%N] false] [VNum one true]) = true.
+Proof.
+  split; [|vm_compute; auto].
+  intros x y Hx Hy. cbn in Hx, Hy. destruct Hx as [<-|[]]; destruct Hy as [<-|[]]. reflexivity.
+Qed.
